@@ -540,7 +540,7 @@ macro_rules! assert_vfs_readlink_abs {
         }
         match $vfs.readlink_abs(&link) {
             Ok(x) => {
-                if !target.has_suffix(&x) {
+                if target != x {
                     panic_msg!("assert_vfs_readlink_abs!", "link target doesn't equal given path", &x);
                 }
             },
